@@ -20,7 +20,7 @@ fn replay_value(f: &FieldDef, p: u64, o: usize) -> Value {
 
 /// one pattern of one field; returns true if the pattern decoded to 'absent'
 #[inline]
-pub fn check_pattern(ctx: &mut Ctx, f: &FieldDef, p: u64, o: usize, bgseed: u64) -> bool {
+pub fn check_pattern(ctx: &mut Ctx, f: &FieldDef, p: u64, o: usize, bgseed: u64, margin: &mut f64) -> bool {
     let w = f.len;
     let mut inb = [0u8; 16];
     let bg = mix(bgseed, p);
@@ -112,8 +112,8 @@ pub fn check_pattern(ctx: &mut Ctx, f: &FieldDef, p: u64, o: usize, bgseed: u64)
             };
             let k = f.pattern_int(p) as f64;
             let m = ((x - f.bias.unwrap_or(0.0)) / res - k).abs();
-            if m > 0.0 {
-                ctx.max("grid_margin_steps", m);
+            if m > *margin {
+                *margin = m;
             }
         }
     }
@@ -255,12 +255,14 @@ pub fn run(p: &Params) -> Outcome {
         Job::Exhaustive { field, lo, hi } => {
             let f = &FIELDS[field];
             let mut absent = 0u64;
+            let mut margin = 0.0f64;
             for pat in lo..hi {
                 let o = (mix(seed, pat) % 61) as usize;
-                if check_pattern(ctx, f, pat, o, seed) {
+                if check_pattern(ctx, f, pat, o, seed, &mut margin) {
                     absent += 1;
                 }
             }
+            ctx.max("grid_margin_steps", margin);
             ctx.evals(hi - lo);
             ctx.nontrivial_enumerated(hi - lo);
             ctx.count_dyn_n(format!("absent_patterns:{}", f.id), absent);
@@ -282,12 +284,13 @@ pub fn run(p: &Params) -> Outcome {
             let m: u64 = if w == 64 { u64::MAX } else { (1u64 << w) - 1 };
             let mut absent = 0u64;
             let mut done = 0u64;
+            let mut margin = 0.0f64;
             if part == 0 {
                 let bp = boundary_patterns(w);
                 for &pat in &bp {
                     for d in [0u64, 1, m] {
                         let q = pat.wrapping_add(d) & m;
-                        if check_pattern(ctx, f, q, (q % 61) as usize, seed) {
+                        if check_pattern(ctx, f, q, (q % 61) as usize, seed, &mut margin) {
                             absent += 1;
                         }
                         done += 1;
@@ -295,7 +298,7 @@ pub fn run(p: &Params) -> Outcome {
                 }
                 if let Some(inv) = f.inv {
                     let q = f.int_pattern(inv);
-                    if !check_pattern(ctx, f, q, 7, seed) {
+                    if !check_pattern(ctx, f, q, 7, seed, &mut margin) {
                         ctx.violation(format!("C08.absent_marker|{}", f.id), "C08.absent_marker", format!("field {}: the pattern of its invalid marker ({:#x}) does not decode to absent", f.id, q), replay_value(f, q, 7));
                     }
                     absent_encoding(ctx, f);
@@ -311,11 +314,12 @@ pub fn run(p: &Params) -> Outcome {
                 let base = ((s as u128 * (m as u128 + 1)) / strata as u128) as u64;
                 let width = (((m as u128 + 1) / strata as u128) as u64).max(1);
                 let pat = (base + rng.below(width)) & m;
-                if check_pattern(ctx, f, pat, (rng.u64() % 61) as usize, seed) {
+                if check_pattern(ctx, f, pat, (rng.u64() % 61) as usize, seed, &mut margin) {
                     absent += 1;
                 }
                 done += 1;
             }
+            ctx.max("grid_margin_steps", margin);
             ctx.evals(done);
             // sampled patterns: strata are disjoint, hence distinct by construction
             ctx.nontrivial_enumerated(strata);
@@ -372,7 +376,7 @@ pub fn replay(_p: &Params, v: &Value) -> Outcome {
                 let p: u64 = v["pattern"].as_str().and_then(|s| s.parse().ok()).unwrap_or(0);
                 let o = v["offset"].as_u64().unwrap_or(0) as usize;
                 ctx.eval();
-                check_pattern(&mut ctx, f, p, o, 1);
+                check_pattern(&mut ctx, f, p, o, 1, &mut 0.0);
             } else {
                 ctx.inconclusive("field not found".into());
             }
@@ -384,7 +388,7 @@ pub fn replay(_p: &Params, v: &Value) -> Outcome {
                 if f.len <= 26 {
                     let mut a = 0;
                     for pat in 0..(1u64 << f.len) {
-                        if check_pattern(&mut ctx, f, pat, 3, 1) {
+                        if check_pattern(&mut ctx, f, pat, 3, 1, &mut 0.0) {
                             a += 1;
                         }
                     }
